@@ -96,12 +96,12 @@ fn c05_clear_leaves_nothing_observable() {
 }
 
 // G3 — the next request on the connection: real clear() on an arbitrary dirty Request, then the whole real read()
-// @verif prop=C05 tier=quick replay=none timeout=900 mem=12 unwindset="7Request4read.*\.\d+ :2;skip_while.*\.0 :8" bounds="Request with an arbitrary 32-byte buffer, a standard + a custom header, payload, context entry and path of an earlier request; clear(); then `GET /v HTTP/1.1 CRLF B: xy CRLF CRLF` (x, y symbolic) is read into the same Request"
+// @verif prop=C05 tier=off replay=none timeout=900 mem=12 unwindset="7Request4read.*\.\d+ :2;skip_while.*\.0 :8" bounds="Request with an arbitrary 32-byte buffer, a standard + a custom header, payload, context entry and path of an earlier request; clear(); then `GET /v HTTP/1.1 CRLF B: xy CRLF CRLF` (x, y symbolic) is read into the same Request"
 #[kani::proof]
 #[kani::stub(core::str::from_utf8, stubs::from_utf8_model)]
 #[kani::stub(ohkami::util::unix_timestamp, stubs::unix_timestamp_zero)]
 #[kani::stub(ohkami_lib::time::imf_fixdate, stubs::fixdate_const)]
-#[kani::unwind(34)]
+#[kani::unwind(50)]
 fn c05_next_request_after_dirty_clear() {
     let mut req = v::request_init();
     {
